@@ -109,7 +109,9 @@ def _norm_ret(op, ret):
         return [canon_space(s) for s in ret]
     if op == "succ":
         return list(ret)
-    if op in ("allseeds", "expseeds"):
+    if op == "expsets":
+        return dict(ret)
+    if op in ("allseeds", "expseeds", "expcands"):
         return {k: [canon_space(s) for s in v] for k, v in ret.items()}
     if op == "control":
         return [repr(x) for x in ret]
@@ -155,7 +157,7 @@ def run_case(case) -> Result:
                 except BBError as e:
                     outs.append(("bb_error", e.kind))
             if outs[0] != outs[1]:
-                if not (s["op"] == "cands" and reclaimed and outs[0][0] == "ok" and outs[1][0] == "ok"):
+                if not (s["op"] in ("cands", "expcands") and reclaimed and outs[0][0] == "ok" and outs[1][0] == "ok"):
                     res.violate("return-differs", op=s["op"], step=k, subject=str(outs[0])[:300], shadow=str(outs[1])[:300])
                     return res
             if outs[0][0] == "bb_error":
